@@ -375,3 +375,15 @@ Example c12_nonvacuous_fine :
   results (sh (mrun c [2; 2; 2; 1; 0; 2; 0; 0; 1])) 1 = [(0, OLoad)] /\
   mpotential c (init c) = 10.
 Proof. vm_compute. repeat split. Qed.
+
+(* ==== Round 4: the source still has the structure the model was written from (Gen/C12Structure.v is regenerated
+   from breakpad-symbols/src/{lib,http}.rs on every run; C12/Structure.v says what each operation is in the model):
+   FutMutex is the futures-util async mutex; get = lock().await, `if none { store(f().await) }` with the guard held
+   across the await, clone; module_key has its four components, unnormalised; get_symbols goes through
+   cache_default(module_key(module)).get(closure); the closure bumps requested before and processed after the
+   supplier await, classifies the answer as Model.stat_loaded/stat_corrupt do, inserts into stats; nobody else
+   writes the counters, the stats map or the slot maps; locate_file_internal has the same shape over FileKey. *)
+From RM Require Import C12.Structure.
+Theorem c12_source_structure_modelled : structure_matches.
+Proof. exact structure_ok. Qed.
+Print Assumptions c12_source_structure_modelled.
